@@ -95,6 +95,54 @@ def check(prog, res, tier):
                                'reading records'):
         res.add(ob)
 
+    # ---- C06.c write_many: every message is handed to write() when it is taken from the iterable, before the next is taken
+    wci0 = prog.cls('mciipm.IpmWriter')
+    mres = wci0.lookup('write_many')
+    if mres and mres[0] == 'method':
+        mfi0 = mres[1]
+        wfi0 = wci0.lookup('write')[1]
+
+        def write_cap0(it, fi_, args, kwargs, node, self_obj):
+            it.user.setdefault('written', []).append((it.seqno, it.resolve(args[0]) if args else None))
+            it.seqno += 1
+            return ConstV(None)
+
+        def entry_many0(it):
+            obj = it.instantiate(wci0, [it.new_file('f')], {'encoding': codec(it), 'iso_config': common.generic_bit_config(it),
+                                                            'blocked': SymV('blocked', 'bool')}, None)
+            msgs = IterV(DictV(open_=True, desc='message'), desc='messages')
+            it.user['msgs'] = msgs
+            it.call_function(mfi0, [msgs], {}, self_obj=obj)
+            return obj
+        runs_many0 = Runs(prog, entry_many0, summaries={wfi0.short: write_cap0}, res=res)
+        seen_many0 = {'n': 0}
+
+        def chk_many0(p, mode):
+            fails = []
+            msgs = p.interp.user['msgs']
+            for e in p.events:
+                if e.kind == 'ext-call' and e.data['callee'] in ('list', 'tuple', 'sorted', 'reversed') and e.data['args'] and \
+                        p.interp.resolve(e.data['args'][0]) is msgs and e.under(mfi0.short):
+                    fails.append(definite(f'write_many consumes the whole iterable with {e.data["callee"]}() before the first message is '
+                                          f'encoded: a producer that refills one dictionary per message ends up with copies of its last '
+                                          f'message in the file', e.node, firm=True))
+            for first, last, s0, s1, head in iterations(p, func=mfi0.short):
+                li = [e for e in p.events if e.kind == 'loop-iter' and e.node is head.node and first <= e.seq < last]
+                if not li:
+                    continue
+                elem = p.interp.resolve(li[-1].data.get('elem'))
+                mine = [v for sq, v in p.interp.user.get('written', []) if first < sq <= last]
+                seen_many0['n'] += mode == 'inv'
+                if len(mine) != 1 or mine[0] is not elem:
+                    fails.append(definite(f'an iteration of write_many hands {len(mine)} messages to write(), not exactly the message it '
+                                          f'took from the iterable', head.node))
+            return fails
+        from ..decide import require_instances, iterations
+        res.add(require_instances(
+            runs_many0.judge('C06.c', 'IpmWriter.write_many hands every message to write() as it is taken from the iterable, one per iteration',
+                             func_where(mfi0), 'for record in iterable: self.write(record)', chk_many0, rule='C06.c.many'),
+            seen_many0['n'], 'a loop of write_many over the iterable'))
+
     # ---- C06.c every write encodes the message it is given, as it is at that moment
     wci = prog.cls('mciipm.IpmWriter')
     wmfi = wci.lookup('write')[1]
